@@ -25,7 +25,9 @@ from .. import tlc
 from . import constellation_common as cc
 
 CARE = ["Rejects", "Accepts", "WellFormed", "Bijective", "UnitEnergy", "IndexRaises", "ModulateOk", "ModulateLaw",
-        "ShapeKept", "MLDetection", "RoundTrip", "Unchecked"]
+        "ShapeKept", "MLDetection", "RoundTrip", "Unchecked",
+        # frame laws of notes/CALL_DISCIPLINE.md
+        "EarlierResultsUnchanged", "ArgumentsUnchanged", "ResultNotAliased", "RejectedChangesNothing"]
 PSK_SMALL = [2, 4, 8, 16, 32, 64]
 PSK_BIG = [128, 256, 512, 1024]
 
@@ -136,16 +138,26 @@ def check_rows(ctx, live, rows, label, present=None):
     # blocks of 24 samples as non-contiguous multi-dimensional arrays
     nblk = len(z) // 24
     reported = False
+    prev = [None, None]
     for k in range(nblk if present is None else 1):
         shp, lay = BLOCKS[(_rot[0] + k) % len(BLOCKS)] if present is None else (tuple(present[0]), present[1])
         sl = slice(24 * k, 24 * k + int(np.prod(shp)))
         arr = cc.as_layout(z[sl].reshape(shp), lay, fill=7 + 7j)
         case = dict(base, a=[int(v) for v in a[sl]], b=[int(v) for v in b[sl]], near=near[sl], present=[list(shp), lay])
+        snap = np.array(arr, copy=True)
         try:
             out = np.asarray(live.obj.demodulate(arr))
         except Exception as ex:
             ctx.violation(f"{label}: demodulate of a {lay} array of shape {shp} raised {type(ex).__name__}: {ex}", case)
             return nbad + 1
+        # call discipline: the argument is an input only; the result of the previous block is still what it was
+        if not np.array_equal(arr, snap):
+            ctx.violation(f"{label}: demodulate modified its argument (a {lay} array of shape {shp})", case)
+            return nbad + 1
+        if prev[0] is not None and not np.array_equal(prev[0], prev[1]):
+            ctx.violation(f"{label}: the array returned by the previous demodulate call was overwritten by this call", case)
+            return nbad + 1
+        prev[0], prev[1] = out, np.array(out, copy=True)
         g = out.reshape(-1) if out.shape == tuple(shp) else None
         w = np.nonzero(g != exp[sl])[0] if g is not None else np.arange(len(exp[sl]))
         if len(w):
@@ -218,7 +230,7 @@ def run(ctx):
     jobs = machine_jobs(ctx)
     with ThreadPoolExecutor(cc.nthreads()) as ex:
         futs = [(n, ex.submit(cc.run_machine, **kw)) for n, kw in jobs]
-        devf = ex.submit(cc.model_devs, ctx, ["QamAcceptsOne", "NoNormalisation", "ModulateWraps", "DetectRealOnly"])
+        devf = ex.submit(cc.model_devs, ctx, ["QamAcceptsOne", "NoNormalisation", "ModulateWraps", "DetectRealOnly", "ModulateReusesBuffer"])
         specs = history_specs(ctx)
         traces = [cc.record_history(sp)[0] for sp in specs]
         runs = [(n, f.result()) for n, f in futs]
@@ -227,7 +239,7 @@ def run(ctx):
     for n, r in runs:
         ctx.account(r, cc.MODULE, n)
         emitted += r.emitted
-    ctx.require_actions(["Construct", "SetPhaseOffsetAny", "ModulateAny", "DemodulateAny"])
+    ctx.require_actions(["Construct", "SetPhaseOffsetAny", "ModulateAny", "Modulate2Any", "DemodulateAny"])
     # stage T first: the tables stage R relies on are judged here
     verdicts = cc.validate(ctx, traces, CARE, "histories")
     for tr, vd in zip(traces, verdicts):
